@@ -192,6 +192,9 @@ func engineGen(g *eng.Gen, variant string, i int) {
 		g.CatchBias = true
 	case "noposts":
 		g.NoPosts = true
+	case "pre":
+		g.Pre = true
+		g.CatchBias = i%3 == 1
 	default:
 		if i%3 == 1 {
 			g.CatchBias = true
